@@ -658,6 +658,13 @@ func (p *Prog) Facts(fi *FuncInfo, opt FactOpts) *Facts {
 					in.add(orTerms[0])
 				}
 			}
+			// entering a range body (re)binds the key and value variables
+			if b.Kind == cfg.KindRangeBody {
+				if rs, ok := b.Stmt.(*ast.RangeStmt); ok {
+					in = in.clone()
+					fa.killRangeVars(in, rs)
+				}
+			}
 			if old, ok := fa.in[b]; ok && old.equal(in) && out[b] != nil {
 				continue
 			}
@@ -748,4 +755,46 @@ func (p *Prog) hasLockOp(n ast.Node) bool {
 		return true
 	})
 	return found
+}
+
+// killRangeVars removes the facts that mention the key/value variables of a
+// range statement (go/cfg has no node for the per-iteration assignment).
+func (fa *Facts) killRangeVars(fs *FactSet, rs *ast.RangeStmt) {
+	p := fa.p
+	vars := map[*types.Var]bool{}
+	for _, e := range []ast.Expr{rs.Key, rs.Value} {
+		if id, ok := e.(*ast.Ident); ok {
+			o := p.Info.Defs[id]
+			if o == nil {
+				o = p.Info.Uses[id]
+			}
+			if v, ok := o.(*types.Var); ok {
+				vars[v] = true
+			}
+		}
+	}
+	if len(vars) == 0 {
+		return
+	}
+	mentions := func(t *Term) bool {
+		m := false
+		t.Walk(func(x *Term) {
+			if x.Op == "var" {
+				if v, ok := x.Obj.(*types.Var); ok && vars[v] {
+					m = true
+				}
+			}
+		})
+		return m
+	}
+	for k, a := range fs.Atoms {
+		if mentions(a) {
+			delete(fs.Atoms, k)
+		}
+	}
+	for v, d := range fs.Defs {
+		if vars[v] || mentions(d) {
+			delete(fs.Defs, v)
+		}
+	}
 }
